@@ -30,7 +30,7 @@ type c03cfg struct {
 
 // (step, answer) pairs that fail the earlier attempt of an afterFailed scenario
 var c03failures = [][2]string{{"auth", "failure"}, {"header3-features", "message-instead"}, {"bind", "error-echo"}, {"bind", "close"},
-	{"session", "error"}, {"enable", "failed"}, {"starttls", "failure"}, {"header1", "close"}}
+	{"session", "error"}, {"enable", "failed"}, {"starttls", "failure"}, {"header1", "close"}, {"none", "none"}}
 
 func (c c03cfg) name() string {
 	n := fmt.Sprintf("insecure=%v/resource=%v/sm=%v/resumable=%v/starttls=%s/session=%s/smadv=%v",
@@ -101,7 +101,10 @@ func c03body(sc c03cfg) func() {
 			n := &negCfg{domain: "example.org", starttls: sc.starttls, cert: "valid", mechs: []string{"PLAIN"},
 				session: sc.session, sm: sc.smAdv, pick: explorePick}
 			if k < last && sc.afterFailed {
-				// earlier attempt: the configuration under test, one step failed
+				// earlier attempt: a server that offers everything (mandatory session, stream management) whatever the
+				// connection under test will offer - what was advertised then says nothing about now -, one step failed
+				// (or none: an earlier complete session, ended by the client)
+				n.session, n.sm = "mandatory", true
 				n.pick = func(step string, alts ...string) string {
 					if step == failure[0] {
 						for _, a := range alts {
